@@ -76,6 +76,49 @@ def mk_diff(run, bins):
                         nontrivial=lambda c: True)
 
 
+KF_D11 = "C16-D11-adjust-overflow-wraps"
+I64_MIN, I64_MAX = -2**63, 2**63 - 1
+EDGE = [I64_MIN, I64_MIN + 1, I64_MIN + 4, -2**62, -2**62 - 1, 2**62, 2**62 + 1, I64_MAX - 4, I64_MAX - 1, I64_MAX, -1, 1, 5, -5, 0]
+
+
+def gen_edge_cases(run):
+    """node values and grid values at the edge of i64: sums that leave the type's range, and sums that just fit"""
+    rng = run.rng; cases = []
+    n = 1600 if run.thorough else 260
+    for _ in range(n):
+        nk = rng.randrange(4); k = NCOORD[nk]; op = rng.choice([1, 1, 1, 0])
+        natural = {0: 1, 1: 1, 2: 3, 3: 4}[nk]
+        shape = rng.choice([sh for sh in SHAPES if all(tuple(p) in set(cells(natural, *sh)) for p in target_points(nk))])
+        node = [rng.choice(EDGE) if rng.random() < 0.7 else mag(rng, rng.choice([-1, 1])) for _ in range(k)] + [rng.randrange(1, 50) for _ in range(4 - k)]
+        gv = [rng.choice(EDGE) if rng.random() < 0.7 else mag(rng, rng.choice([-1, 1])) for _ in range(k)]
+        stores = [(*pt, v) for pt, v in zip(target_points(nk), gv)]
+        sums = [node[i] + gv[i] for i in range(k)]
+        cases.append(Case("adjustable", [nk, op, natural, *shape, *node], stores,
+                          {"node": NK[nk], "op": "update" if op == 0 else "adjust", "edge": True,
+                           "overflows": bool(op == 1 and any(not (I64_MIN <= x <= I64_MAX) for x in sums))}))
+    return cases
+
+
+def known_d11(case, impl, model, spec):
+    # the implementation does what the committed release model (every sum wrapped modulo 2^64) does, the operation is an adjust and
+    # at least one mathematical sum old + delta lies outside i64
+    if case.meta.get("overflows"):
+        return (KF_D11, "adjust adds with the wrapping machine + of a release build: when old + delta leaves the range of the element type the wrapped value is "
+                        "tested instead (witness: data node -5 adjusted by -(2^63-1) succeeds and holds 2^63-4; debug builds panic instead)")
+    return None
+
+
+def edge_phase(run, bins):
+    cases = gen_edge_cases(run)
+    d = Differential(run, bins, lambda c: "adjustable_wrap_entry", None, check_entry=lambda c: "adjustable_check_entry",
+                     known=known_d11, nontrivial=lambda c: True)
+    d.process(cases)
+    found = d.finish()
+    run.cov["edge_of_the_machine_type"] = {"cases": len(cases), "with_a_sum_outside_i64": sum(1 for c in cases if c.meta["overflows"]),
+                                           "model": "Adjustable/Overflow.v adjust_w (sums wrapped modulo 2^64), theorem adjust_w_in_range"}
+    return found
+
+
 def main():
     run = Run("C16")
     run.do_proof(PROPS)
@@ -89,6 +132,7 @@ def main():
     for i in range(0, len(cases), B):
         d.process(cases[i:i + B])
     found = d.finish()
+    found = edge_phase(run, bins) or found
     proof_failure_violation(run, found or run.violations)
     run.cov["rule"] = ("exhaustive over node kind x {update, adjust} x sign pattern {-,0,+}^k of the grid values x sign pattern {-,0,+}^k of the node "
                        "(k = 1,1,3,4), magnitudes from a small set plus random, adjust deltas often chosen to land exactly on zero; grid of the natural "
@@ -97,10 +141,15 @@ def main():
     run.cov["distribution"] = dist
     run.cov["samples"] = [cases[0].to_json(), cases[-1].to_json()]
     run.cov["exhaustive"] = True
-    run.finish(extra_trusted=["machine integers modelled as Z: the theorems are for values whose sums fit the machine type (i64 in the harness)"],
-               assumptions=["values whose sums do not overflow", "'a time is negative' is read as: a replacement time (update) is negative; for adjust the stated condition is 'an adjusted value would be negative'"])
+    run.finish(extra_trusted=["machine integers modelled as Z: the property theorems are for values whose sums fit the machine type (i64 in the harness); the release build's wrapping "
+                              "addition is modelled in Adjustable/Overflow.v (adjust_w), proved equal to the unbounded model when all sums fit, and compared with the implementation on "
+                              "values at the edge of i64; outside the range the property fails: known finding D11"],
+               assumptions=["the property theorems assume sums that do not overflow (outside: finding D11)", "'a time is negative' is read as: a replacement time (update) is negative; for adjust the stated condition is 'an adjusted value would be negative'"])
 
 
 def replay(path):
     run = Run("C16"); ensure_driver(); bins = builds(run)
+    dj = json.load(open(path))
+    if (dj.get("case") or {}).get("meta", {}).get("edge"):
+        return generic_replay(Differential(run, bins, lambda c: "adjustable_wrap_entry", None, check_entry=lambda c: "adjustable_check_entry", known=known_d11), path)
     return generic_replay(mk_diff(run, bins), path)
